@@ -160,4 +160,17 @@ def chdirIsContextManager : Bool := true
 def parseCallArguments : List String :=
   []
 
+/-- every `raise` reachable from `generate()` (helpers of `__init__.py` inlined under the call site's conditions): function, exception,
+message, guarding conditions in order, after `parser.parse()`?, before the first file-system effect? -/
+def refusals : List Refusal :=
+  [⟨"get_first_file", "Error", "File not found", ["input_file_type == InputFileType.Auto"], false, true⟩,
+   ⟨"generate", "Error", "Invalid file format", ["input_file_type == InputFileType.Auto", "except Exception"], false, true⟩,
+   ⟨"generate", "Error", "f'Input must be a file for {input_file_type}'", ["not (input_file_type == InputFileType.OpenAPI)", "not (input_file_type == InputFileType.GraphQL)", "input_file_type in RAW_DATA_TYPES", "isinstance(input_, Path) and input_.is_dir()"], false, true⟩,
+   ⟨"generate", "Error", "f'Unsupported input file type: {input_file_type}'", ["not (input_file_type == InputFileType.OpenAPI)", "not (input_file_type == InputFileType.GraphQL)", "input_file_type in RAW_DATA_TYPES", "not (input_file_type == InputFileType.CSV)", "not (input_file_type == InputFileType.Yaml)", "not (input_file_type == InputFileType.Json)", "not (input_file_type == InputFileType.Dict)"], false, true⟩,
+   ⟨"generate", "Error", "Invalid file format", ["not (input_file_type == InputFileType.OpenAPI)", "not (input_file_type == InputFileType.GraphQL)", "input_file_type in RAW_DATA_TYPES", "except Exception"], false, true⟩,
+   ⟨"generate", "Error", "union_mode is only supported for pydantic_v2.BaseModel", ["union_mode is not None", "not (output_model_type == DataModelType.PydanticV2BaseModel)"], false, true⟩,
+   ⟨"generate", "Error", "Models not found in the input data", ["not results"], true, true⟩,
+   ⟨"generate", "Error", "Modular references require an output directory", ["not (isinstance(results, str))", "output is None"], true, true⟩,
+   ⟨"generate", "Error", "Modular references require an output directory, not a file", ["not (isinstance(results, str))", "output.suffix"], true, true⟩]
+
 end Dcg.Gen.GenerateSteps
